@@ -97,6 +97,10 @@ Definition creset (s : pc) : pc := mkpc [] 0 (cap s) (isnil s) opInvalid.   (* R
 (* NewPrintCtx(buf) with len(buf) = length b, cap(buf) = c *)
 Definition new_pc (b : bytes) (c : Z) (nil : bool) : pc := mkpc b 0 c nil opInvalid.
 
+(* what NewPrintCtx can be handed: len(buf) <= cap(buf), and a nil slice is empty *)
+Definition init_ok (b : bytes) (c : Z) (nil : bool) : Prop :=
+  zlen b <= c /\ (nil = true -> b = [] /\ c = 0).
+
 Inductive gres := GOk (s : pc) | GPanic (p : panic).
 
 (* growSlice(b, n): the capacity it asks append for *)
@@ -262,6 +266,21 @@ Fixpoint cbits (s : pc) (ops : list op) : list bool :=
               relocates s o :: (if halts r then [] else cbits s' t)
   end.
 
+(* a bit list the specification may be run with: on every executed Grow it says
+   what the concrete run did (for all other operations the bit is ignored) *)
+Definition compat (s : pc) (o : op) (b : bool) : Prop :=
+  match o with OGrow _ => b = relocates s o | _ => True end.
+Fixpoint bits_ok (s : pc) (ops : list op) (bits : list bool) : Prop :=
+  match ops with
+  | [] => True
+  | o :: t =>
+    match bits with
+    | [] => False
+    | b :: bt => compat s o b /\
+                 (let '(s', r) := cstep s o in halts r = true \/ bits_ok s' t bt)
+    end
+  end.
+
 (* the state after the run (stops at the first panic) *)
 Fixpoint crun (s : pc) (ops : list op) : pc :=
   match ops with
@@ -403,12 +422,22 @@ Definition sstep (moved : bool) (a : spec) (o : op) : spec * result :=
   | OBytes | OString => (a, Res [] u ENil)
   end.
 
-Fixpoint strace (bits : list bool) (a : spec) (ops : list op) : list obs :=
+Fixpoint strace (bits : list bool) (a : spec) (ops : list op) {struct ops} : list obs :=
   match ops, bits with
   | o :: t, b :: bt => let '(a', r) := sstep b a o in
                        (r, unread a') :: (if halts r then [] else strace bt a' t)
   | _, _ => []
   end.
+
+Definition is_grow (o : op) : bool := match o with OGrow _ => true | _ => false end.
+
+(* "the same results, errors or panics and contents at every step"; the one
+   thing the specification does not have is ErrTooLarge (running out of memory
+   is not part of the contract): a concrete run may end in it, after agreeing
+   with the specification on every step before. *)
+Definition trace_refines (tc ts : list obs) : Prop :=
+  tc = ts \/
+  exists pre c x rest, tc = pre ++ [(Panicked PTooLarge, c)] /\ ts = pre ++ x :: rest.
 
 (* ---------------------------------------------------------------- equality tests *)
 Definition err_eqb (a b : err) : bool :=
